@@ -1,11 +1,13 @@
 (* C19 - Style resolution is a deterministic last-wins cascade, faithfully
    encoded.  Statements only; proofs are in Proofs/C19_*.v.
    Strings are code point lists; colours (r, g, b) are Python ints. *)
-From Coq Require Import ZArith List Bool.
+From Coq Require Import ZArith List Bool Sorting.Permutation Sorting.Sorted.
 From PTK Require Import Lib.Sx Lib.Py Lib.C19_Str Gen.C19_Palette
      Model.C19_Palette Model.C19_Style Model.C19_Sgr
      Proofs.C19_PaletteFacts Proofs.C19_StrFacts Proofs.C19_StyleFacts Proofs.C19_SgrFacts
-     Proofs.C19_StyleStringFacts Proofs.C19_ResolvedFacts.
+     Proofs.C19_StyleStringFacts Proofs.C19_ResolvedFacts
+     Model.C19_FromDict Model.C19_Transform Model.C19_Cache
+     Proofs.C19_FromDictFacts Proofs.C19_TransformFacts Proofs.C19_CacheFacts.
 Import ListNotations.
 Open Scope Z_scope.
 
@@ -200,3 +202,84 @@ Example C19_rt_dom_example :
               (Some true) None (Some false) (Some true) None None (Some true)).
 Proof. exact rt_dom_example. Qed.
 Print Assumptions C19_rt_dom_example.
+
+(* ---- Style.from_dict --------------------------------------------------- *)
+
+(* Priority.MOST_PRECISE: the same rules, ordered by the number of class-name
+   elements, rules of equal precision in dictionary order (stable sort). *)
+Theorem C19_most_precise_order : forall items,
+  Permutation (from_dict_rules true items) items /\
+  StronglySorted (le_key precision_key) (from_dict_rules true items) /\
+  (forall v, filter (key_is precision_key v) (from_dict_rules true items)
+             = filter (key_is precision_key v) items).
+Proof. exact most_precise_order. Qed.
+Print Assumptions C19_most_precise_order.
+
+(* ... and the cascade theorems hold for the order from_dict builds: the result
+   is concrete and every attribute is the value of the last applicable entry
+   in THAT order (for MOST_PRECISE: the most precise applicable rule wins, among
+   equally precise ones the later dictionary entry). *)
+Theorem C19_from_dict_last_wins : forall mp items s d a,
+  from_dict_get mp items s d = Ok a ->
+  exists table l,
+    mk_style (from_dict_rules mp items) = Ok table /\
+    entries_spec table s d = Some l /\ all_last_wins l a /\ concrete a.
+Proof. exact from_dict_last_wins. Qed.
+Print Assumptions C19_from_dict_last_wins.
+
+(* ---- style transformations --------------------------------------------- *)
+(* [opp], [adj]: the floating point kernels of get_opposite_color and
+   AdjustBrightness (colorsys round trips), arbitrary functions here;
+   kernel_ok = "returns six hexadecimal digits" (checked on the real code by
+   the harness). *)
+
+Theorem C19_transform_in_domain : forall opp adj, kernel_ok opp -> kernel_ok adj ->
+  forall t a a', rt_dom a -> transform opp adj t a = Ok a' -> rt_dom a'.
+Proof. exact transform_in_domain. Qed.
+Print Assumptions C19_transform_in_domain.
+
+Theorem C19_transform_concrete : forall opp adj t a a',
+  concrete a -> transform opp adj t a = Ok a' -> concrete a'.
+Proof. exact transform_concrete. Qed.
+Print Assumptions C19_transform_concrete.
+
+(* The round trip extends through any transformation (swap light/dark, reverse,
+   default colours, brightness, conditional, merged, dynamic) of resolved
+   attributes. *)
+Theorem C19_sgr_roundtrip_transformed : forall opp adj rules s d a t a',
+  kernel_ok opp -> kernel_ok adj -> rt_dom d ->
+  style_get rules s d = Ok a -> transform opp adj t a = Ok a' ->
+  concrete a' /\ decode_seq (escape_code 24 a') = Ok (canon a').
+Proof. exact sgr_roundtrip_transformed. Qed.
+Print Assumptions C19_sgr_roundtrip_transformed.
+
+(* Totality: transformations without AdjustBrightness and with well-formed
+   default colours never fail on in-domain attributes ... *)
+Theorem C19_transform_total : forall opp adj, kernel_ok opp -> kernel_total opp -> kernel_ok adj ->
+  forall t a, well_formed t = true -> rt_dom a -> exists a', transform opp adj t a = Ok a'.
+Proof. exact transform_total. Qed.
+Print Assumptions C19_transform_total.
+
+(* ... but AdjustBrightnessStyleTransformation raises ValueError on the resolved
+   colour "default" (style "fg:default"): finding C19-F2. *)
+Theorem C19_transform_total_refuted :
+  exists rules s a,
+    style_get rules s DEFAULT_ATTRS = Ok a /\
+    kernel_ok const_kernel /\ kernel_total const_kernel /\
+    transform const_kernel const_kernel (TAdjust true false) a = Err 1.
+Proof. exact transform_total_refuted. Qed.
+Print Assumptions C19_transform_total_refuted.
+
+(* ---- caches ------------------------------------------------------------- *)
+(* _EscapeCodeCache (one per depth), _16ColorCache (fg, bg) and _256ColorCache
+   as memo tables, the encoder running over them: after ANY history of
+   queries, from any state satisfying the invariant (e.g. empty caches), every
+   cached answer equals the uncached one. *)
+Theorem C19_caches_transparent : forall qs w,
+  world_inv w -> run_queries w qs = map pure_answer qs.
+Proof. exact caches_transparent. Qed.
+Print Assumptions C19_caches_transparent.
+
+Theorem C19_caches_transparent_fresh : forall qs, run_queries EMPTY_W qs = map pure_answer qs.
+Proof. exact caches_transparent_fresh. Qed.
+Print Assumptions C19_caches_transparent_fresh.
